@@ -26,5 +26,8 @@ C02_MergeEqualsNew == PlainOf(Merged) = new
 C02_HandlesKept == LET f == IdOf(old)
                        kept == Ids(Merged, <<>>)
                    IN \A p \in PathsOf(old) : StaysAttached(old, new, p) => <<p, f[p]>> \in kept
+\* pairs that differ ONLY in leaf types Python's == conflates (1 / True; with floats also 1.0): exported separately
+ExportEq == (old # new /\ PyEq(old, new) /\ (SampleK <= 1 \/ RandomElement(1..SampleK) = 1))
+            => PrintT("PAIR " \o ToJson([old |-> old, new |-> new]))
 Export == (SampleK <= 1 \/ RandomElement(1..SampleK) = 1) => PrintT("PAIR " \o ToJson([old |-> old, new |-> new]))
 =============================================================================
